@@ -215,6 +215,16 @@ def run_property(prop, tier="quick", repo_root="/repo", seed=0, only=None, verbo
                       open(rpath, "w"), indent=1, default=str)
             violations.append("VIOLATION property=%s replay=%s" % (prop, rpath))
     known_lines += extra.get("known_lines", [])
+    # ---- thorough tier: native cross-check of every DISCHARGED contract on random pre-states (informational: a disagreement
+    # on a proved clause is an engine defect or an artefact of A1 - binary floats vs exact reals -; it never changes the verdict)
+    crosscheck = []
+    if tier == "thorough" and not only:
+        for c, r in fun_results:
+            if r is None or c.kind != "repo" or r.status != "ok" or c.qual in und_funcs:
+                continue
+            sres = run_standin(c, r, repo, repo_root, seed, 1500)
+            crosscheck.append(dict(function=c.qual, evaluations=sres.get("evaluations"), accepted_by_requires=sres.get("accepted"), disagreements=len(sres.get("failures", [])),
+                                   first=(sres.get("failures") or [None])[0] and {k: v for k, v in sres["failures"][0].items() if k != "pre_state"}, error=sres.get("error")))
     for ev in extra["violations"]:
         fname = re.sub(r"[^A-Za-z0-9_.@-]", "_", ev["obligation"])[:150] + ".json"
         rpath = os.path.join(VERIF, "replays", prop, fname)
@@ -256,6 +266,7 @@ def run_property(prop, tier="quick", repo_root="/repo", seed=0, only=None, verbo
         obligation_instances=len(all_obls),
         ground_checks=extra["ground"],
         bounded_standin=bounded,
+        native_crosscheck=crosscheck,
         explanation="contract-based deductive verification: VCs generated from the current /repo AST by pyvc and discharged by SMT; level is 'proof' only when every generated obligation is discharged, no function is out of reach and no canary is vacuous",
     )
     model_assumptions = ["abstract property read as a heap field: %s" % a for a in spec.abstract_props] + [
